@@ -85,7 +85,7 @@ def source_table(thorough):
     for rep in reps:
         for n in ([0, 1, 3, 4, 5, 9] if thorough else [0, 1, 4, 9]):
             E("VectorSource<Big>", {"repeat": rep}, "ramp", n, big=True, sched=(n in (4, 9) and rep in (1, 2)))
-        for n in ([0, 100, 4096, 4097, 9000, 20000] if thorough else [0, 100, 4097]):
+        for n in ([0, 100, 4096, 4097, 9000] if thorough else [0, 100, 4097]):
             E("VectorSource<u8>", {"repeat": rep}, "bytes", n)
             E("FileSource<u8>", {"repeat": rep}, "bytes", n)
             E("SigMFSource<u8>", {"repeat": rep}, "bytes", n)
@@ -128,7 +128,7 @@ def run(ctx):
         if k not in seen and len(s) >= 3:
             seen.add(k)
             uniq.append(s)
-    specs = blocks.make_specs(ctx, table, uniq, 10 if th else 5, "none", 1 if th else 2, probes_close=False)
+    specs = blocks.make_specs(ctx, table, uniq, 6 if th else 5, "none", 1 if th else 2, probes_close=False)
     for s in specs:
         # the tag oracle applies to VectorSource only
         if s.get("fn", {}).get("notags"):
